@@ -449,6 +449,10 @@ func (g *fastGenerator) fieldItem(field *protogen.Field, fieldname string, messa
 			g.P(`iNdEx += skippy`)
 			g.P(`}`)
 			g.P(`}`)
+			// a scalar key or value must end inside the entry as well
+			g.P(`if iNdEx != postIndex {`)
+			g.P(`return `, protoifacePkg.Ident("UnmarshalOutput"), "{NoUnkeyedLiterals: input.NoUnkeyedLiterals, Flags: input.Flags},", g.Ident("io", `ErrUnexpectedEOF`))
+			g.P(`}`)
 			if field.Message.Fields[1].Desc.Kind() == protoreflect.MessageKind {
 				// an entry without a value field holds the empty message, never a nil pointer
 				g.P(`if mapvalue == nil {`)
